@@ -1,5 +1,8 @@
 #!/bin/sh
-# tools/seedrun.sh <id> <check> [tier]  -- run a check against a seeded patch (scratch copy), log to /tmp/seedlog_<id>_<check>.txt
-ID=$1; CHECK=$2; TIER=${3:-quick}
-/verif/tools/mut.sh $CHECK $TIER /tmp/seed_$ID/patch.diff "" > /tmp/seedlog_${ID}_${CHECK}.txt 2>&1
-echo "== seed $ID vs $CHECK ($TIER): $(grep -c '^VIOLATION' /tmp/seedlog_${ID}_${CHECK}.txt) violation lines; $(tail -1 /tmp/seedlog_${ID}_${CHECK}.txt)"
+# tools/seedrun.sh <id|dirname> <check> [tier]  -- run a check against a seeded patch (scratch copy)
+# <id> like c04 -> /tmp/seed_c04 ; a name containing '_' (seed2_c04) -> /tmp/<name>
+A=$1; CHECK=$2; TIER=${3:-quick}
+case "$A" in *_*) D=/tmp/$A;; *) D=/tmp/seed_$A;; esac
+LOG=/tmp/seedlog_$(basename $D)_${CHECK}.txt
+/verif/tools/mut.sh $CHECK $TIER $D/patch.diff "" > $LOG 2>&1
+echo "== $(basename $D) vs $CHECK ($TIER): $(grep -c '^VIOLATION' $LOG) violation lines; $(tail -1 $LOG)"
